@@ -107,7 +107,7 @@ def make_manager(kind, sim):
     return (AllStepManager if kind == 0 else TurnBasedManager)(sim)
 
 
-def play(mon, top, mgr_kind, seed, episodes, nsteps, membership=True, after_reset=None):
+def play(mon, top, mgr_kind, seed, episodes, nsteps, membership=True, after_reset=None, steer=None):
     """Seeded episodes of `top` under a real manager with sampled actions; monitors after reset and
     after every step.  after_reset(ep) is called once per episode right after the reset."""
     agents = top.agents
@@ -145,6 +145,10 @@ def play(mon, top, mgr_kind, seed, episodes, nsteps, membership=True, after_rese
                 a = sp.sample()
                 if not contains(sp, a):
                     mon.add(es, t, index[k], K_SAMPLE)
+                if steer is not None:
+                    a = steer(es, t, k, a)         # still a point of the declared space (checked)
+                    if not contains(sp, a):
+                        mon.add(es, t, index[k], K_HARNESS)
                 acts[k] = a
             if not acts:
                 break
@@ -435,8 +439,55 @@ EXAMPLES = {
 }
 
 
+class Steer:
+    """Goal-directed play of one cross/drift-moving agent: walk along a shortest path (over the cells
+    the grid lets the agent enter right now) to a goal cell, preferring passable cells in the first
+    and last column (the tunnel ends of the pacman boards); wait a random number of steps first.
+    Uses Grid.query and CrossMoveActor.grid_action (public) only."""
+
+    def __init__(self, sim, agent_id):
+        self.sim, self.aid = sim, agent_id
+        self.goal, self.wait = None, {}
+
+    def __call__(self, es, t, k, sampled):
+        if k != self.aid or not isinstance(sampled, dict) or "move" not in sampled:
+            return sampled
+        rng = random.Random(es * 7 + t)
+        if es not in self.wait:
+            self.wait[es] = random.Random(es).choice([0, 0, 5, 12, 21, 30])
+            self.goal = None
+        grid, ag = self.sim.grid, self.sim.agents[self.aid]
+        pos = tuple(int(x) for x in ag.position)
+        if t <= self.wait[es]:
+            return {**sampled, "move": 0}
+        rows, cols = grid.rows, grid.cols
+        free = lambda c: c == pos or grid.query(ag, c)
+        if self.goal is None or self.goal == pos or not free(self.goal):
+            ends = [(r, c) for r in range(rows) for c in (0, cols - 1) if free((r, c))]
+            rest = [(r, c) for r in range(rows) for c in range(cols) if free((r, c))]
+            self.goal = rng.choice(ends if (ends and rng.random() < 0.8) else rest)
+        # breadth-first search from the goal: distance of every enterable cell
+        dist, todo = {self.goal: 0}, [self.goal]
+        for c in todo:
+            for d in ((0, 1), (1, 0), (0, -1), (-1, 0)):
+                n = (c[0] + d[0], c[1] + d[1])
+                if 0 <= n[0] < rows and 0 <= n[1] < cols and n not in dist and free(n):
+                    dist[n] = dist[c] + 1
+                    todo.append(n)
+        if pos not in dist:
+            self.goal = None
+            return sampled
+        for a in (1, 2, 3, 4):
+            d = self.sim.move_actor.grid_action(a)
+            n = (pos[0] + int(d[0]), pos[1] + int(d[1]))
+            if dist.get(n, 10 ** 9) < dist[pos]:
+                return {**sampled, "move": a}
+        return sampled
+
+
 def impl_examples(inp):
-    ex, mgr, seed, episodes, nsteps = inp
+    ex, mgr, seed, episodes, nsteps = inp[:5]
+    steered = len(inp) > 5 and inp[5]
     name, builder, mgrs, membership = EXAMPLES[ex]
     mon = Mon(ex)
     try:
@@ -446,7 +497,8 @@ def impl_examples(inp):
             raise
         mon.add(seed, 0, -1, K_BUILD, exc_code(e))
         return [mon.stats(), mon.v]
-    play(mon, sim, mgr, seed, episodes, nsteps, membership)
+    play(mon, sim, mgr, seed, episodes, nsteps, membership,
+         steer=Steer(sim, "pacman") if steered else None)
     return [mon.stats(), mon.v]
 
 
@@ -457,10 +509,15 @@ def gen_examples(tier, rng):
         for mgr in mgrs:
             for _ in range(seeds):
                 yield [ex, mgr, rng.getrandbits(24), 2 if quick else 3, rng.choice([12, 25, 40])]
+    # the two pacman boards, pacman steered to the tunnel ends and other far cells
+    for ex in (6, 7):
+        for _ in range(24 if quick else 300):
+            yield [ex, 0, rng.getrandbits(24), 2, rng.choice([60, 90]), 1]
 
 
 def classify_examples(inp, out):
-    return f"{EXAMPLES[inp[0]][0]}/{'AllStep' if inp[1] == 0 else 'TurnBased'}"
+    return (f"{EXAMPLES[inp[0]][0]}/{'AllStep' if inp[1] == 0 else 'TurnBased'}"
+            + ("/steered" if len(inp) > 5 and inp[5] else ""))
 
 
 # ------------------------------------------------------------------------------------ (b) grid components
